@@ -186,7 +186,15 @@ class Ctx:
             hdir, outdir = priv, os.path.join(self.scratch, "bin")
         os.makedirs(outdir, exist_ok=True)
         out = os.path.join(outdir, prog + ("-race" if race else ""))
-        shutil.copy(os.path.join(REPO, "go.sum"), os.path.join(hdir, "go.sum"))
+        # go.sum of the harness = go.sum of the checkout; replaced atomically and only when it differs, so that checks
+        # started side by side never see a half-written file
+        src_sum = open(os.path.join(REPO, "go.sum"), "rb").read()
+        dst_sum = os.path.join(hdir, "go.sum")
+        if not os.path.exists(dst_sum) or open(dst_sum, "rb").read() != src_sum:
+            tmp_sum = dst_sum + ".%d.tmp" % os.getpid()
+            with open(tmp_sum, "wb") as fh:
+                fh.write(src_sum)
+            os.replace(tmp_sum, dst_sum)
         g, _ = go_bin()
         cmd = [g, "build", "-tags", "verif"] + (["-race"] if race else []) + ["-o", out, "./cmd/" + prog]
         env = go_env()
